@@ -183,6 +183,11 @@ def whole_query_cases(backend):
                 md.update(full)
                 md[k] = bv
                 cases.append((f"md-bad-value:{mt}.{k}:{bn}", f"MetaData(ds, {md!r}).Select(lambda e: {c}.Count())"))
+    # a key that only another backend's collection declaration knows (it would be accepted and ignored)
+    fk = dict(kinds[ckind_name(backend)])
+    fk.update({"metadata_type": ckind_name(backend)})
+    fk.update({"element_pointer": False} if backend == "atlas" else {"link_libraries": ["libX"]})
+    cases.append(("md-foreign-backend-key", f"MetaData(ds, {fk!r}).Select(lambda e: {c}.Count())"))
     cases.append(("md-inject-unknown-field", f"MetaData(ds, {{'metadata_type': 'inject_code', 'name': 'b', 'no_such_field': ['x']}}).Select(lambda e: {c}.Count())"))
     return cases
 
